@@ -1,6 +1,7 @@
 package main
 
 import (
+	"strconv"
 	"fmt"
 	"go/types"
 	"reflect"
@@ -321,6 +322,8 @@ func goValue(v Value) (any, bool) {
 		return s, ok
 	case FloatVal:
 		return v.f, true
+	case U64Val:
+		return v.u, true
 	case IfaceVal:
 		if v.typ == nil {
 			return nil, true
@@ -351,6 +354,9 @@ func (e *Engine) sprint(args []Value) Value {
 					}
 					return mkStr("false")
 				case b.Info()&types.IsInteger != 0:
+					if u, big := iv.val.(U64Val); big {
+						return mkStr(strconv.FormatUint(u.u, 10))
+					}
 					t := iv.val.(*Term)
 					if t.konst {
 						return mkStr(fmt.Sprint(t.iv))
